@@ -14,7 +14,9 @@ CLAIMED = {
         "(d) statements and control flow: lowering of if/elif/else ladders (source order, own scopes), of `name = value` (binding vs mutation over the whole scope chain), of field/index "
         "assignment, return, while, for, break, continue; emission of if/else, while/loop, blocks; emission of list/tuple/set/dict literals, if/block expressions; and the slot each "
         "argument of a keyword call is emitted in (parameter order by name); lowering and emission of `match` (arms in source order; each arm's own pattern, guard, body); the call-site rewrite of "
-        "validated-newtype constructions - statement lists, elif lists, scope chains, match arms, argument and parameter lists as symbolic sequences of 0..=3 (thorough 0..=5/4).",
+        "validated-newtype constructions - statement lists, elif lists, scope chains, match arms, argument and parameter lists as symbolic sequences of 0..=3 (thorough 0..=5/4); "
+        "(e) traversal (X-lower_visits_all): in every arm of lower_expr / lower_statement, on every successful path, every sub-expression and statement of the node is handed to a "
+        "lowering function (children computed from the type definitions) - nothing written in the source is dropped from the generated program.",
    note="Kernel-only: the patterns themselves (lower_pattern / emit_pattern are atoms), comprehensions, closures, f-strings, method calls, struct-literal emission, declarations (functions, models, classes, enums, traits), "
         "per-argument conversions/borrows and every other lowering/emission path are NOT covered; sub-expressions and sub-statements are atoms in each obligation (nesting is "
         "covered by composition of the per-node obligations, not executed). One known finding: nested operator expressions lose their parentheses "
